@@ -487,3 +487,30 @@ CHECKS["C01"]["instances"]["thorough"] += [_ls("VHStatementListener", DEPTH=1, N
 CHECKS["C01"]["claim"] += _LISTENER_NOTE + (" Statements: dialogues of 1..2 nodes whose bodies hold lines (text runs split over several TEXT tokens, inline expressions, "
                                             "conditions, hashtags), set with every assignment token, declare, jump by name/expression, commands (text and expressions, "
                                             "rearranged), calls, and option groups / if-elseif-else chains nested to the listed depth.")
+
+# ---------------------------------------------------------------- additions to the claims after the second seeding round
+_ADD = {
+    "C02": " Evaluation order: every probe call records the values it received (a call receives the values its argument calls returned, in order), "
+           "with another call expression possibly evaluated before; numbers are arbitrary doubles or integers in [-9, 9] (for which % is decided exactly).",
+    "C03": " A second assignment to the same variable follows, after the host wrote to it or not: it starts from what the storer holds. Numbers are "
+           "arbitrary doubles or integers in [-9, 9] (for which %= is decided exactly).",
+    "C04": " The same line / group is rendered twice on one runner, the host rewriting every variable it reads in between (the second rendering shows "
+           "the new values), optionally after a line whose inline expression failed half-way (nothing of it shows).",
+    "C07": " visited/visited_count asked through the function table of both restored runners report the snapshot's counts. Host-built snapshots (nil, "
+           "empty or filled maps) restore to the state they describe and the runner then runs, jumps included, without panicking.",
+    "C11": " They do so with a second runner of another history alive, and across a restore: after restoring an arbitrary snapshot they report its "
+           "counts, and after the jump that follows the count of the node left is one more unless it is not tracked.",
+    "C12": " Also with the continuation stack living in a bigger backing array (STACKCAP), as after a run that was deeper once.",
+    "C13": " Edge whitespace: leading x inner x trailing whitespace around and inside markers (text trimmed, attributes delimit what remains of their "
+           "enclosed text). A second open-form replacement marker later on the line.",
+    "C14": " Results of the history are kept and compared with copies after the later parses (a result handed out is not changed by what the parser "
+           "does next); the runner side compares properties as well.",
+    "C15": " Histories of family lines on one parser (VHMarkupHistory): no panic, earlier results intact, TextForAttribute on them total.",
+    "C19": " Every one-argument call is made twice (same outcome, same value) and the argument is compared with a copy taken before (built-ins are "
+           "functions of their argument and leave it alone).",
+    "C20": " Stacks: also short stacks in backing arrays of 16 and 32 cells (after Clear or many pops).",
+    "C05": " The listener FromReader hands to lexer and parser records every syntax error it is told about, with or without an offending token "
+           "(VHSyntaxErrors).",
+}
+for _k, _v in _ADD.items():
+    CHECKS[_k]["claim"] += _v
